@@ -15,7 +15,8 @@ CONSTANTS
   Boot <- BootABC
   CrashSet <- OnlyC
   StopSet <- OnlyB
-  Sync = FALSE
+  Sync = TRUE
+  TrackAge = TRUE
 INVARIANTS TypeOK Converged LearnsLive ForgetsDead PeerForgotten PeerLearnt SelfListed PeriodRestored NoDuplicateAddr ChannelSane
 PROPERTIES CallbackIffChange NoResurrection
 VIEW View
